@@ -176,7 +176,20 @@ fn run_tables(seed: u64, idx: u64, tier: Tier, out: &mut CaseOut, c05: bool) {
                 }
             }
         }
-        let ctx = if crng.chance(1, 3) { crng.range(1, 3) } else { 0 };
+        // ids on the table, its first row and first cells; nested tables get them too
+        if crng.chance(1, 3) {
+            fn set_ids(t: &mut TTable) {
+                t.ids = true;
+                for c in t.rows.iter_mut().flatten() {
+                    if let Some(n) = c.nested.as_mut() {
+                        set_ids(n);
+                    }
+                }
+            }
+            set_ids(&mut table);
+            out.inc("tables_with_ids");
+        }
+        let ctx = if crng.chance(1, 3) { crng.range(1, 4) } else { 0 };
         (vec![variant(&mut crng)], ctx)
     };
     // context: 0 = top level, 1 = inside <blockquote>, 2 = inside <ul><li>, 3 = both
@@ -192,6 +205,7 @@ fn run_tables(seed: u64, idx: u64, tier: Tier, out: &mut CaseOut, c05: bool) {
             .node()],
             4,
         ),
+        4 => (vec![ast::El::with("div", vec![tnode]).attr("id", "wrap").node()], 0),
         _ => (vec![tnode], 0),
     };
     if ctx > 0 {
